@@ -79,8 +79,12 @@ class ModbusBinaryFramer(ModbusFramer):
         end = self._buffer.find(self._end)
         if end != -1:
             self._header['len'] = end
-            self._header['uid'] = struct.unpack('>B', self._buffer[1:2])[0]
-            self._header['crc'] = struct.unpack('>H', self._buffer[end - 2:end])[0]
+            try:
+                self._header['uid'] = struct.unpack('>B', self._buffer[1:2])[0]
+                self._header['crc'] = struct.unpack('>H', self._buffer[end - 2:end])[0]
+            except struct.error:
+                # too short to hold an address and a CRC: not a frame
+                return False
             data = self._buffer[start + 1:end - 2]
             return checkCRC(data, self._header['crc'])
         return False
